@@ -208,6 +208,11 @@ func judgeSigningTransition(c *Ctx, n, t int, ex *explorer, s *exState, ev *exEv
 		mon.Contrib&(1<<uint(ev.P)) == 0 && mon.Fails&(1<<uint(ev.P)) == 0 {
 		c.Violate("C06/genuine-contribution-to-current-batch-refused", fmt.Sprintf("%s is participant %d's first answer to the batch being collected (%d of t=%d so far) but was refused in %s: %v", ev.Label, ev.P, bits.OnesCount32(mon.Contrib), t, res.Before, res.Err), wit())
 	}
+	// ... and so must its genuine first failure report: "more than n-t failures cancel the batch" needs them counted
+	if res.Err != nil && ev.Kind == "partialerr" && ev.Known && ev.Msg.ID != "partialerr-hostile" && mon.Cur != 0 &&
+		mon.Contrib&(1<<uint(ev.P)) == 0 && mon.Fails&(1<<uint(ev.P)) == 0 {
+		c.Violate("C06/genuine-failure-report-refused", fmt.Sprintf("%s is participant %d's first answer to the batch being collected (%d failure(s) so far, n=%d t=%d) but was refused in %s: %v", ev.Label, ev.P, bits.OnesCount32(mon.Fails), n, t, res.Before, res.Err), wit())
+	}
 	if res.Err != nil {
 		if res.ProjA != res.ProjB {
 			c.Violate("C06/rejected-event-changed-round", fmt.Sprintf("%s in %s returned an error but the persisted round changed (%s -> %s)", ev.Label, res.Before, res.Before, res.After), wit())
